@@ -14,7 +14,7 @@
 From Coq Require Import List NArith ZArith Bool String.
 From Verif Require Import common.Sexp sem.JV sem.Syntax c09.FullAst c09.Printer c09.ParseActions c09.ParseFull
   c09.Lexer c09.Run c09.FullCases c09.RoundTripCases c09.FullCasesProofs c09.RoundTripProofs
-  c09.RespaceProofs c09.PrintTokens c09.PrintTokensAst.
+  c09.RespaceProofs c09.StrLex c09.WfAst c09.PrintTokens c09.PrintTokensAst.
 Import ListNotations.
 
 (* every action text of the current parser.go.y has a transcription in the model (an edited action has none) *)
@@ -65,22 +65,47 @@ Proof. exact label_ok. Qed.
 Print Assumptions C09c_label_delimits.
 
 (* round trip through the printer, the lexer and the real automaton for the bounded AST family of
-   RoundTripCases.v (6196 programs: every term form x every suffix form / pairs, signs, try, 73 contexts, modules) *)
+   RoundTripCases.v (7516 programs: every term form x every suffix form / pairs, signs, try, 73 contexts, modules) *)
 Theorem C09c_roundtrip_family : forall p, In p rt_family -> parse_prog (print_prog p) = PAccept p.
 Proof. exact rt_family_roundtrip. Qed.
 Print Assumptions C09c_roundtrip_family.
 
+(* ... and every program of that family satisfies the syntactic description of the parser's image (WfAst.v: names
+   lexically valid, Index/Suffix/Query/key/pattern shapes, no suffixes on unary/try/label terms, interpolated-string
+   shape); the same predicate is evaluated on every AST gojq.Parse returns in the correspondence (stream full, item 4) *)
+Theorem C09c_family_in_wfq : forallb wf_prog rt_family = true.
+Proof. exact rt_family_wf. Qed.
+Print Assumptions C09c_family_in_wfq.
+
+(* ... and so do the explicitly written expected ASTs of the binding / delimiting families above *)
+Theorem C09c_expected_in_wfq :
+  expected_wf (unary_cases_terms ++ unary_cases_ops ++ as_cases ++ def_cases ++ reduce_cases ++ if_cases ++ try_cases
+               ++ label_cases) = true.
+Proof. exact families_wf. Qed.
+Print Assumptions C09c_expected_in_wfq.
+
+(* UNBOUNDED.  encoder.encodeString (the printer's string quoting) writes, for EVERY byte string, only bytes that the
+   lexer's scanString walks over without leaving the string: no bare quote, every backslash a complete valid escape *)
+Theorem C09c_encode_string_safe : forall s, safeb (enc_body s) = true.
+Proof. exact enc_body_safe. Qed.
+Print Assumptions C09c_encode_string_safe.
+
 (* UNBOUNDED.  Lexing what the printer prints: for every AST q of the sub-grammar of PrintTokensAst.v —
-     base ::= . | .. | NAME | $NAME | DIGITS | @NAME | .NAME | .[q] | .[q:q] | .[q:] | .[:q] | (q) | [q] | [] | {} | { kv, ..., kv }
+     base ::= . | .. | NAME | $NAME | NUMBER (any literal Lex accepts: 1 1.5 .5 1e3 1.E-2 ...) | @NAME | @NAME STRING
+            | STRING | .NAME | .STRING | .[q] | .[q:q] | .[q:] | .[:q] | (q) | [q] | [] | {} | { kv, ..., kv }
             | break $NAME | if q then q {elif q then q} [else q] end
-            | reduce q as $NAME (q; q) | foreach q as $NAME (q; q[; q])
-     kv ::= NAME: q | NAME | $NAME | (q): q
-     pt ::= base | pt .NAME | pt [q] | pt [q:q] | pt [q:] | pt [:q] | pt [] | pt ?
+            | reduce q as PATTERN (q; q) | foreach q as PATTERN (q; q[; q])
+     STRING ::= "bytes" (every byte string, as encodeString quotes it) | "lit\(q)lit\(q)...lit" (interpolation, nested)
+     kv ::= NAME: q | NAME | $NAME | (q): q | "bytes": q | "bytes"
+     pt ::= base | pt .NAME | pt ."bytes" | pt [q] | pt [q:q] | pt [q:] | pt [:q] | pt [] | pt ?
      ut ::= pt | + ut | - ut | try q [catch q]
-     q  ::= ut | q OP q (24 operators) | label $NAME | q | q as $NAME | q | def NAME: q; q       (any nesting)
+     q  ::= ut | q OP q (24 operators) | label $NAME | q | q as PATTERN {?// PATTERN} | q
+          | def NAME: q; q | def NAME(NAME; $NAME; ...): q; q                                        (any nesting)
+     PATTERN ::= $NAME | [PATTERN, ...] | {NAME: PATTERN, $NAME, "bytes": PATTERN, ...}
    names being identifiers (not keywords where they are calls, keys or defined names) — the lexer model run on the
    bytes print_query writes for the embedded AST e_sq q (Index.writeTo spacing rule included: `. .[q]`, `a1 .b`,
-   `12 .a`, `end.b`, `{ k: v }`) yields exactly tokens_of q, then eof. *)
+   `12 .a`, `1 ."a"`, `end.b`, `{ k: v }`; the inString mode with the parser's feedback emulated by parenthesis
+   matching, as in Lexer.tokenize) yields exactly tokens_of q, then eof. *)
 Theorem C09c_print_tokens : forall q, wf_sq q = true ->
   option_map (map Run.proj) (Lexer.tokenize (print_query (e_sq q))) = Some (tokens_of q ++ [(KEOF, [])]).
 Proof. exact print_tokens. Qed.
@@ -88,8 +113,10 @@ Print Assumptions C09c_print_tokens.
 
 (* UNBOUNDED.  Any list of tokens of the alphabet identifier / keyword / $name / .name / @name / digits / . / .. /
    ( ) [ ] { } ? ; : / the 24 operators, each preceded by at most one space, whose gaps satisfy [nb_ok] (the bytes
-   after a token do not extend it) lexes to exactly those tokens *)
-Theorem C09c_tokenize_items : forall items, chain items = true ->
+   after a token do not extend it) and whose string tokens come in the order the lexer's inString mode requires
+   ([modes]: opening quote, literal pieces, \( ... ), closing quote, with balanced parentheses) lexes to exactly those
+   tokens.  The alphabet now also has whole string literals and the five token kinds of interpolated strings. *)
+Theorem C09c_tokenize_items : forall items, chain items = true -> modes false [] items = true ->
   option_map (map Run.proj) (Lexer.tokenize (frender items)) = Some (map fexpected items ++ [(KEOF, [])]).
 Proof. exact tokenize_items. Qed.
 Print Assumptions C09c_tokenize_items.
@@ -128,7 +155,7 @@ Example C09c_print_tokens_example :
   let q := QDef (codes "f") (QU (USign true (UT (PSfx (PBase (BNum (codes "12"))) (XName (codes "a"))))))
     (QLabel (codes "l") (QAs
       (QU (UTryCatch a (QU (UT (PSfx (PBase (BIfElse a a (ECons a a ENil) (QU (USign true (UT (PBase BId)))))) (XName (codes "b")))))))
-      (codes "x")
+      (PV (codes "x")) []
       (QBin (QU (UT (PSfx (PSfx (PBase BId) (XIdx (QU (UT (PBase (BName (codes "a1"))))))) (XName (codes "b")))))
             OpAlt (QU (UT (PSfx (PBase (BObj (KMore (KVVal (codes "k") a) (KOne (KVVar (codes "x")))))) XIter)))))) in
   wf_sq q = true /\
@@ -136,11 +163,22 @@ Example C09c_print_tokens_example :
   codes "def f: -12 .a; label $l | try a catch if a then a elif a then a else -. end.b as $x | . .[a1].b // { k: a, $x }[]".
 Proof. split; vm_compute; reflexivity. Qed.
 
+(* non-vacuity of print_tokens for strings: 1 ."a" + "x\("\(a)")y" | @json "\(.)" *)
+Example C09c_print_tokens_strings :
+  let a := QU (UT (PBase (BName (codes "a")))) in
+  let q := QBin (QBin (QU (UT (PSfx (PBase (BNum (codes "1"))) (XStr (codes "a")))))
+                      OpAdd (QU (UT (PBase (BIStr (codes "x") (QU (UT (PBase (BIStr [] a (TEnd [])))))
+                                                  (TEnd (codes "y")))))))
+                OpPipe (QU (UT (PBase (BFormatIStr (codes "json") [] (QU (UT (PBase BId))) (TEnd []))))) in
+  wf_sq q = true /\
+  print_query (e_sq q) = codes "1 .""a"" + ""x\(""\(a)"")y"" | @json ""\(.)""".
+Proof. split; vm_compute; reflexivity. Qed.
+
 (* non-vacuity: the families are not empty *)
 Example C09c_family_sizes :
   (List.length unary_cases_terms, List.length unary_cases_ops, List.length as_cases, List.length def_cases,
    List.length reduce_cases, List.length if_cases, List.length try_cases, List.length label_cases)
-  = (2688, 96, 49, 73, 97, 48, 72, 48)%nat /\ List.length rt_family = 6196%nat.
+  = (2688, 96, 49, 73, 97, 48, 72, 48)%nat /\ N.of_nat (List.length rt_family) = 7516%N.
 Proof. split; [exact family_sizes | exact rt_family_size]. Qed.
 
 (* The full statement over the models; C09.v's C09_full is its abstract form.  NOT proved: *)
